@@ -20,9 +20,10 @@ scale+=[{"set":"w","file":"bsdiff/diff.go","func":"Do","match":"128 * 1024","val
  {"set":"w","file":"bsdiff/patch.go","func":"NewIndividualPatchContext","ident":"minBufferSize","value":"4"},
  {"set":"w","file":"bsdiff/patch.go","func":"NewIndividualPatchContext","ident":"lruChunkSize","value":"4"},
  {"set":"w","file":"bsdiff/patch.go","func":"NewIndividualPatchContext","ident":"lruNumEntries","value":"2"}]
-H.append({"name":"H_bsdiff_real","tiers":Q,"scale":"w","bounds":"scan block 64 (matches longer than bsdiff's 8-byte threshold exist), lru chunk 4 x 2 entries: concrete distinct old of 24..40 bytes, new by insertion / deletion / block move / duplication / two edits at 3 positions, and old = A T U B T with new = old + U (overlapping forward/backward match extensions at the end of old), one fresh symbolic byte; partitions 0, 2, 3; series checked, applied through the LRU file, resumed from every saved offset",
+H.append({"name":"H_bsdiff_real","tiers":Q,"scale":"w","bounds":"scan block 64 (matches longer than bsdiff's 8-byte threshold exist), lru chunk 4 x 2 entries: concrete distinct old of 24..40 bytes, new by insertion / deletion / block move / duplication / two edits at 3 positions, and old = A T U B T with new = old + U (overlapping forward/backward match extensions at the end of old); also with a context already used for a larger pair (reuse), one fresh symbolic byte; partitions 0, 2, 3; series checked, applied through the LRU file, resumed from every saved offset",
   "param_sets":[{"nold":n,"shape":sh,"pos":p,"parts":pt,"conc":0} for n in (24,40) for sh in range(5) for p in (5,11,12) for pt in (0,2,3)]+
-   [dict({"nold":48,"shape":5,"pos":k,"parts":pt,"conc":0},**t) for k in (6,9,12) for pt in (0,2) for t in ({},{"tail":1})]})
+   [dict({"nold":48,"shape":5,"pos":k,"parts":pt,"conc":0},**t) for k in (6,9,12) for pt in (0,2) for t in ({},{"tail":1})]+
+   [{"nold":24,"shape":sh,"pos":11,"parts":pt,"conc":0,"reuse":r} for sh in (0,2,3) for pt in (0,2) for r in (1,16)]})
 H.append({"name":"H_bsdiff_edit","tiers":Q,"scale":"s4","bounds":"lru chunk 4 / copy buffer 4 / scan block 8, alphabet {0,1}: old of 5..9 bytes, new = old with one byte (every position) replaced by a fresh symbol: add regions that run to the end of the old file with the delta in any read slice, incl. the last short one; partitions 0..1",
   "param_sets":[{"nold":n,"pos":p,"alpha":2,"parts":q,"conc":0} for n in (5,6,7,9) for p in range(n) for q in (0,1)]})
 H.append({"name":"H_bsdiff","tiers":T,"scale":"s","bounds":"alphabet {0,1,2}: old 0..5, new 0..6, partitions 0..16","max_seconds":1500,
